@@ -11,6 +11,10 @@ Modelled code (st4sd-runtime-core):
   3132-3232 `_createCompleteGraph` (edges only), 805-923 `DataReference.resolve` (choice of the
   producer for `:ref`-like methods of a placeholder, order of the instances for `:loopref/:loopoutput`).
 
+This file models ONE DoWhile document; `Model/LoopMulti.lean` models a workflow with several documents (shared discovery
+of placeholders, per-document iteration counters, the Controller's readers) and is what the driver runs; for one
+document the two coincide (`St4sd.C05.runM_single`).
+
 References are modelled *parsed* (`Ref`): the text-level parse/compile of reference strings
 (`ParseDataReferenceFull`, `compile_reference`, the regular expression substitution inside argument
 strings) is not part of this model; the harness parses the real strings into `Ref`s.
